@@ -15,7 +15,7 @@ OPKINDS = ("binop1", "binop2", "unop1", "incdec", "assign2")
 
 
 def chunks(tier, n, kinds=("c", "c", "c", "h")):
-    out = [dict(micro=i) for i in range(len(F.micro_programs()))]
+    out = [dict(maxi=i) for i in range(len(F.maximal_programs()))] + [dict(micro=i) for i in range(len(F.micro_programs()))]
     return out + [dict(seed=i, kind=kinds[i % len(kinds)], rot=i // len(kinds) % 3) for i in range(n)]
 
 
@@ -99,8 +99,9 @@ def c07_invariants(prog, o):
     v = list(c07_violations(o))
     if o.kind != "ok":
         return v           # acceptance is C01's subject
-    if len(o.segments) != len(prog.lines):
-        v.append(("C07:statement-count", f"{len(o.segments)} statements recognised in a file of {len(prog.lines)} one-statement lines"))
+    stmt_lines = [l for l in prog.lines if l.kind != "cont"]        # continuation lines belong to the statement above
+    if len(o.segments) != len(stmt_lines):
+        v.append(("C07:statement-count", f"{len(o.segments)} statements recognised in a file of {len(stmt_lines)} statements"))
     for k, (col, last, scope, lvl, rule, ln) in enumerate(o.seginfo):
         if col is not None and not (col == 1):
             v.append((f"C07:statement-not-at-line-start:{rule}", f"statement {rule} starts at column {col}"))
@@ -108,8 +109,8 @@ def c07_invariants(prog, o):
         if last != "NEWLINE":
             v.append((f"C07:statement-not-ending-at-eol:{rule}", f"statement {rule} ends with {last}"))
             break
-    if len(o.seginfo) == len(prog.lines):
-        for l, si in zip(prog.lines, o.seginfo):
+    if len(o.seginfo) == len(stmt_lines):
+        for l, si in zip(stmt_lines, o.seginfo):
             if l.kind == "func_close" and not (si[2] == "GlobalScope" and si[3] == 0):
                 v.append(("C07:scope-not-global-after-function", f"after the closing brace of a function the scope is {si[2]} (level {si[3]})"))
                 break
@@ -123,7 +124,10 @@ def run_chunk(chunk, ctx):
     ex = Explorer()
     core.set_run(ex)
     c07 = ctx.get("prop") == "C07"
-    if "micro" in chunk:
+    if "maxi" in chunk:
+        prog = F.maximal_programs()[chunk["maxi"]]
+        sym, full = pick_symbolic(prog, 0, 0, 0, 1)
+    elif "micro" in chunk:
         prog = F.micro_programs()[chunk["micro"]]
         sym, full = pick_symbolic(prog, 0, 99, 99, 1)
     else:
@@ -169,7 +173,8 @@ def run_chunk(chunk, ctx):
 def replay(case):
     if case.get("c07"):
         ch = case["c07"]
-        prog = F.micro_programs()[ch["micro"]] if "micro" in ch else F.program(ch["seed"], ch.get("tier", "quick"), ch["kind"])
+        prog = (F.maximal_programs()[ch["maxi"]] if "maxi" in ch else
+                F.micro_programs()[ch["micro"]] if "micro" in ch else F.program(ch["seed"], ch.get("tier", "quick"), ch["kind"]))
         o = P.run_text(case["name"], case["text"], monitor=True)
         return dict(digest=dict(kind=o.kind, errors=[list(e) for e in o.errors]), violations=[list(v) for v in c07_invariants(prog, o)])
     o = P.run_text(case["name"], case["text"], keep_tokens=True)
